@@ -107,6 +107,9 @@ class TableOps:
                 amt = self._amount(st, tb, ev.args[1])
                 eng.obl("SYM-4", "sub:reinsert", ev.b)
                 nonzero = mentions(v, lambda x: x[0] == "call" and x[2].startswith("core::num::NonZero") and x[2].endswith("::get"))
+                if not nonzero:
+                    # an explicit `remaining != 0` / `remaining > 0` test on the value that is written back
+                    nonzero = any(h[0] == "cmp" and h[2] == v and is_const(h[3], 0) and ((h[1] == "Ne" and h[4]) or (h[1] == "Eq" and not h[4]) or (h[1] == "Gt" and h[4]) or (h[1] == "Le" and not h[4])) for h in st.flags)
                 how = [f[3] for f in st.flags if f[0] == "subamt" and f[1] == g]
                 # `if count > n { insert(k, count - n) } else { remove(k) }`
                 if v[0] == "bin" and v[1] in ("Sub", "SubUnchecked"):
@@ -122,6 +125,14 @@ class TableOps:
                     eng.violate("SYM-4", "unchecked-subtraction", "a link count is lowered with arithmetic that can wrap below zero", ev.b, st)
                 self.sites["sub"].add(ev.b)
                 return add(st, ("top", "sub", tb, kind, target, amt))
+            # `if let Some(c) = get_mut(k) { *c += 1 } else { insert(k, 1) }`: the first record of a link
+            if self._amount(st, tb, ev.args[1]) == ABSENT or self._known_absent(st, tb, ev.args[1]):
+                self.sites["add"].add(ev.b)
+                eng.obl("SYM-4", "add", ev.b)
+                if not is_const(v, 1):
+                    eng.violate("SYM-4", "insert-not-plus-one", "a link that was not recorded before is created with count %s instead of 1" % show(v)[:40], ev.b, st)
+                st = rem(st, lambda g: g[0] == "top" and g[1] == "sub" and g[2] == tb and g[5] == ABSENT and g[3] == kind and g[4] == target)
+                return add(st, ("top", "add", tb, kind, target, v))
             # a plain overwrite of a link count
             eng.violate("SYM-4", "link-count-overwritten", "a link count in the table of %s is overwritten with %s instead of being adjusted" % (show(tb), show(v)[:80]), ev.b, st)
             return None
@@ -188,6 +199,14 @@ class TableOps:
                 st = rem(st, lambda g: g == f)
                 return add(st, ("top", "add", tb, kind, target, amt))
         return None
+
+    def _known_absent(self, st, tb, key):
+        for f in st.flags:
+            if f[0] == "cv" and len(f) >= 3 and f[2] is False:
+                e = f[1]
+                if e[0] == "call" and e[2].startswith("hashbrown::HashMap") and e[2].endswith("::contains_key") and len(e[3]) >= 2 and table_of(e[3][0]) == tb and _same_key(e[3][1], key):
+                    return True
+        return False
 
     def _amount(self, st, tb, key):
         # the lookup of this key is known to have found nothing: the removal is vacuous
